@@ -15,9 +15,10 @@ Local Open Scope Z_scope.
 Ltac Zify.zify_post_hook ::= Z.to_euclidean_division_equations.
 
 (* every boot file comes back with the number of blocks it was written with *)
-Definition bp_blocks_kept (s : bstate) : Prop :=
+Definition bp_blocks_kept_gen (fx : bool) (s : bstate) : Prop :=
   forall i, 0 < erefs i (bboot s) ->
-    blocks_of (len_of i (linodes (bl (reopened s)))) = blocks_of (len_of i (linodes (bl s))).
+    blocks_of (len_of i (linodes (bl (reopened_gen fx s)))) = blocks_of (len_of i (linodes (bl s))).
+Definition bp_blocks_kept : bstate -> Prop := bp_blocks_kept_gen true.
 
 (* ---- tables ---------------------------------------------------------------------------------------------- *)
 
@@ -77,25 +78,26 @@ Qed.
 (* ---- the invariant ---------------------------------------------------------------------------------------- *)
 
 Section Reopen.
+  Variable fx : bool.
   Variable s : bstate.
   Hypothesis HI : BInv s.
   Hypothesis HF : BFix s.
   Hypothesis HS : bp_stamps_ok s.
-  Hypothesis HK : bp_blocks_kept s.
+  Hypothesis HK : bp_blocks_kept_gen fx s.
   Let l := bl s.
   Let tbl := linodes (bl s).
   Let nx := lnext (bl s).
   Let t1 := bp_named_tbl nx tbl (lvisit l) [].
   Let ks := bp_nonempty_ids t1.
-  Let r := reopened s.
+  Let r := reopened_gen fx s.
   Let t := linodes (bl r).
   Let t2 := match bboot s with
-            | Some b => bp_hidden s (combine (binos b) (cat_scs (bcat b))) ks
+            | Some b => bp_hidden fx s (binos b) (combine (binos b) (cat_scs (bcat b))) ks
             | None => []
             end.
 
   Lemma bp_t_split : t = t1 ++ t2.
-  Proof. unfold t, r, reopened, t2. destruct (bboot s); cbn [bl linodes]; [reflexivity|rewrite app_nil_r; reflexivity]. Qed.
+  Proof. unfold t, r, reopened_gen, t2. destruct (bboot s); cbn [bl linodes]; [reflexivity|rewrite app_nil_r; reflexivity]. Qed.
 
   Lemma bp_lt j : In j (ids tbl) -> (j < nx)%nat.
   Proof.
@@ -112,7 +114,7 @@ Section Reopen.
   Proof.
     unfold t2. destruct (bboot s) as [b|] eqn:Hb; [|intros []]. intros Hj. split.
     - cbn [erefs]. apply ab_count_pos. rewrite <- (bp_binos_of b Hb). eapply bp_hidden_ids. exact Hj.
-    - apply (proj2 (bp_hidden_nodup s (combine (binos b) (cat_scs (bcat b))) ks)), Hj.
+    - apply (proj2 (bp_hidden_nodup fx s (binos b) (combine (binos b) (cat_scs (bcat b))) ks)), Hj.
   Qed.
 
   (* what is in the walk's table *)
@@ -122,7 +124,7 @@ Section Reopen.
   Proof.
     intros H. destruct (bp_named_in nx tbl k v _ _ H) as [(nm & i & st & H1 & H2 & H3 & H4 & H5)|(H1 & H2 & H3 & _ & nm & st & H5)].
     - left. split; [exact H5|]. exists nm, i, st. tauto.
-    - right. split; [exact H3|]. split; [exact H2|]. split; [split; [apply ab_has_ino_in, H1|congruence]|].
+    - right. split; [exact H3|]. split; [exact H2|]. split; [split; [apply ab_has_ino_in, H1|intros E; apply H3; rewrite H2; exact E]|].
       eapply bp_visit_ref. exact H5.
   Qed.
 
@@ -154,7 +156,7 @@ Section Reopen.
       assert (Hin : In i (ids t)).
       { rewrite bp_t_split. unfold ids. rewrite map_app. apply in_or_app. unfold t2.
         destruct (bboot s) as [b|] eqn:Hb; [|cbn in He; lia]. cbn [erefs] in He. apply ab_count_pos in He.
-        destruct (bp_hidden_covers s i (combine (binos b) (cat_scs (bcat b))) ks) as [H|H];
+        destruct (bp_hidden_covers s fx (binos b) i (combine (binos b) (cat_scs (bcat b))) ks) as [H|H];
           [rewrite (bp_binos_of b Hb); exact He| |right; exact H].
         left. apply ab_mem_in in H. apply bp_nonempty_in in H. destruct H as (v & H & _). eapply bp_in_ids, H. }
       apply in_map_iff in Hin. destruct Hin as ([k v] & Hk & Hin). cbn [fst] in Hk. subst k.
@@ -169,6 +171,12 @@ Section Reopen.
     - apply (bp_entry_placed s HI HF). apply bp_t2_entry. eapply bp_in_ids, H.
   Qed.
 
+  Lemma bp_tbl_placed i v : NoDup (ids tbl) -> In (i, v) tbl -> v <> 0 -> bp_placed s i.
+  Proof.
+    intros HN H1 H2. split; [eapply bp_in_ids, H1|]. pose proof (bp_len_of_in i v tbl HN H1) as E. unfold tbl in E.
+    rewrite E. exact H2.
+  Qed.
+
   Lemma bp_tbl_sum : tbl_sum t = tbl_sum tbl.
   Proof.
     destruct (bi_live s HI) as (HN & _ & _). rewrite (bp_sum_nz t bp_t_nodup), (bp_sum_nz tbl HN).
@@ -176,17 +184,16 @@ Section Reopen.
     { apply NoDup_Permutation; [apply bp_nonempty_nodup, bp_t_nodup|apply bp_nonempty_nodup, HN|].
       intros i. rewrite !bp_nonempty_in. split.
       - intros (v & H1 & H2). destruct (bp_t_nz_placed i v H1 H2) as [P1 P2].
-        exists (len_of i tbl). split; [|exact P2]. apply in_map_iff in P1. destruct P1 as ([k w] & Hk & Hin).
-        cbn [fst] in Hk. subst k. rewrite (bp_len_of_in i w tbl HN Hin). exact Hin.
-      - intros (v & H1 & H2). assert (Hp : bp_placed s i).
-        { split; [eapply bp_in_ids, H1|]. rewrite (bp_len_of_in i v tbl HN H1). exact H2. }
+        apply in_map_iff in P1. destruct P1 as ([k w] & Hk & Hin). cbn [fst] in Hk. subst k.
+        exists w. split; [exact Hin|]. pose proof (bp_len_of_in i w tbl HN Hin) as E. unfold tbl in E.
+        rewrite <- E. exact P2.
+      - intros (v & H1 & H2). assert (Hp : bp_placed s i) by (apply (bp_tbl_placed i v HN H1 H2)).
         destruct (bp_placed_in_t i Hp) as (v' & Hin & Hb). exists v'. split; [exact Hin|].
         intros ->. rewrite blocks_of_0 in Hb. destruct Hp as [_ Hp2].
         pose proof (bp_len_nonneg s i HI) as Hn. unfold blocks_of, ceiling_div, C, tbl in *. lia. }
     rewrite (zsum_perm _ _ (Permutation_map _ HP)). f_equal. apply map_ext_in. intros i Hi.
     apply bp_nonempty_in in Hi. destruct Hi as (v & H1 & H2).
-    assert (Hp : bp_placed s i).
-    { split; [eapply bp_in_ids, H1|]. rewrite (bp_len_of_in i v tbl HN H1). exact H2. }
+    assert (Hp : bp_placed s i) by (apply (bp_tbl_placed i v HN H1 H2)).
     destruct (bp_placed_in_t i Hp) as (v' & Hin & Hb). rewrite (bp_t_len i v' Hin). exact Hb.
   Qed.
 End Reopen.
